@@ -264,9 +264,15 @@ def rule_scope_parent(ctx, facts, rule):
         for b, s in assigns:
             src = data_origins(prov._of_rvalue(fn, b, s["rv"], (), 0, set()))
             detail = str(origin_strs(src))
-            ok = ok and any(suffix_is(x, ".span_queue", ".parent_id") for x in src) and \
-                any(v[0] == "call" and v[1].endswith("Option::<T>::filter") for x in src for v in x.via) and \
-                not any(suffix_is(x, ".id") for x in src)
+            stored = [x for x in src if suffix_is(x, ".span_queue", ".parent_id")]
+            rest = [x for x in src if x not in stored and not (x.kind == "const" and str(x.key).startswith("fn:"))]
+            by_filter = any(v[0] == "call" and v[1].endswith("Option::<T>::filter") for x in src for v in x.via)
+
+            def is_root_cmp(o):
+                return suffix_is(o, ".parent_id") and any(v[0] == "call" and re.search(r"PartialEq(<.*>)?>?::(eq|ne)$", v[1]) for v in o.via)
+            by_branch = all(x.kind == "agg" and str(x.key).endswith("Option::None") for x in rest) and bool(rest) and \
+                bool(bool_cond_edges(fn, prov, is_root_cmp, True) | bool_cond_edges(fn, prov, is_root_cmp, False))
+            ok = ok and bool(stored) and (by_filter or by_branch) and not any(suffix_is(x, ".id") for x in src)
         ctx.check(ok, rule, fn.path, fn.span,
                   "finish_span: next_parent_id is restored to the finished span's stored parent (None when it was the scope's root)",
                   detail, "origins %s" % detail, extra="finish.restore")
@@ -402,7 +408,11 @@ def rule_context_copies(ctx, facts, rule, fields=("trace_id", "span_id", "sample
             if nm == "from_span" and fld == "span_id":
                 good = bool(src) and all(suffix_is(x, ".raw_span", ".id") for x in src)
             else:
-                good = bool(src) and all(suffix_is(x, suff) for x in src)
+                # origins that name no field of a token item are container plumbing (the stored token as a whole feeding a
+                # capacity, an iterator): what matters is which item FIELD the value is read from
+                ITEM_FIELDS = (".trace_id", ".parent_id", ".collect_id", ".is_root", ".is_sampled", ".id", ".span_id", ".sampled")
+                named = [x for x in src if x.path[-1] in ITEM_FIELDS]
+                good = bool(named) and all(suffix_is(x, suff) for x in named)
             ctx.check(good, rule, p, fn.loc(b), "%s: SpanContext.%s <- %s" % (nm, fld, "the span's own id" if suff == ".id" else "the first token item's " + suff[1:]),
                       "origins %s" % origin_strs(src), "origins %s" % origin_strs(src), extra=fld)
 
@@ -924,7 +934,14 @@ def rule_token_derivation_total(ctx, facts, rule):
         calls = [g.term(b)["callee"] for g in bodies for b in g.calls() if not g.blocks[b]["cleanup"]]
         trunc = [c for c in calls if TRUNC.search(c)]
         has = any(re.search(r"Iterator>?::map$", c) for c in calls) and any(re.search(r"Iterator>?::collect$", c) for c in calls)
-        ctx.check(has and not trunc, rule, fn.path, fn.span, "a scope re-issues its token item by item (iter -> map -> collect)", "",
+        if not has:
+            # external iteration: `for item in token { out.push(CollectTokenItem { .. }) }` -- next() and the push on one loop
+            nx = [b for b in fn.calls_re(r"Iterator>?::next$", cleanup=False)]
+            ps = [b for b in fn.calls_re(r"alloc::vec::Vec::<T, A>::push$", cleanup=False) if "CollectTokenItem" in fn.term(b)["arg_tys"][0]]
+            if nx and ps and all(fn.on_cycle(b) for b in nx + ps) and all(ps_b in fn.natural_loop(nx[0]) or fn.on_cycle(ps_b) for ps_b in ps):
+                has = True
+                trunc = [c for c in trunc if not re.search(r"Iterator>?::next$", c)]
+        ctx.check(has and not trunc, rule, fn.path, fn.span, "a scope re-issues its token item by item (iter -> map -> collect, or a loop that pushes one item per stored item)", "",
                   "iterator calls %s" % sorted({c.rsplit('::', 1)[1] for c in calls}), extra="scope-total")
 
 
